@@ -138,6 +138,9 @@ type SCase struct {
 	Rows    [][]Cell         `json:"rows"` // per row: cells of columns 1.. (column 0 is the key id = row index + 1)
 	Reader  string           `json:"reader"`
 	Selects []Sel            `json:"selects"`
+	// Pipelined: the reader writes every request together with a probe SELECT in front of it (pgsess Config.Probes):
+	// the proxy reads the request while the answer to the probe is on its way
+	Pipelined bool `json:"pipelined,omitempty"`
 }
 
 func genSessionCase(t *rapid.T) SCase {
@@ -234,6 +237,7 @@ func genSessionCase(t *rapid.T) SCase {
 		}
 		c.Selects = append(c.Selects, s)
 	}
+	c.Pipelined = rapid.IntRange(0, 3).Draw(t, "pipelined") == 0
 	return c
 }
 
@@ -501,7 +505,12 @@ func CheckSession(c SCase) *sessResult {
 		rid = w.Carol
 	}
 	run.class("reader:" + c.Reader)
-	sR, err := pgsess.Start(pgsess.Config{SchemaYAML: yaml, KeyStore: w.KS, ClientID: rid, Tables: defs, Store: store})
+	var probes []string
+	if c.Pipelined {
+		probes = pgsess.AutoProbes(defs)
+		run.class("reader:pipelined")
+	}
+	sR, err := pgsess.Start(pgsess.Config{SchemaYAML: yaml, KeyStore: w.KS, ClientID: rid, Tables: defs, Store: store, Probes: probes})
 	if err != nil {
 		if !timeout(err, "start of the reading session") {
 			res.vs.Add("harness:start", "reader: %v", err)
@@ -630,6 +639,12 @@ func CheckSession(c SCase) *sessResult {
 		}
 	}
 	run.suffix = ""
+	// pipelined probes: a statement that was answered while the next one was being read must be described as it is
+	// described alone
+	for _, d := range sR.ProbeDiffs {
+		run.add("pipelined-statement-described-with-settings-of-the-next:pg", "%s", d)
+		break
+	}
 
 	// nothing the reader cannot reveal may appear anywhere in what it received
 	_, recv := sR.ClientStreams()
